@@ -136,6 +136,7 @@ pub fn base(tier: Tier) -> Profile {
         p_prepare: 0.0,
         p_quiet_after_prepare: 0.0,
         p_prepare_after_failed: 0.0,
+        p_clear_after_prepare: 0.0,
         prepare_targets: all_metrics(),
 
         queries: Range(1, 4),
@@ -187,6 +188,8 @@ pub fn profile(name: &str, tier: Tier) -> Option<Profile> {
             p.queries = if q { Range(3, 4) } else { Range(18, 22) };
             p.p_exhaustive = 0.9;
             p.threads = if q { vec![(1, Const(1))] } else { vec![(3, Const(1)), (1, Range(2, 16))] };
+            // exact search after a change of metric too (the headers are recomputed from the stored vectors)
+            p.p_prepare = 0.15;
         }
         // any budget, filtered
         "c03" => {
@@ -194,6 +197,7 @@ pub fn profile(name: &str, tier: Tier) -> Option<Profile> {
             p.queries = if q { Range(30, 50) } else { Range(80, 120) };
             p.p_exhaustive = 0.15;
             p.rounds = Range(1, 3);
+            p.p_prepare = 0.15;
             if !q {
                 // a hundred queries per built state: the model's traversal is quadratic in the queue length
                 p.first_items = Mix(vec![(1, Range(0, 3)), (6, Range(0, 60)), (2, Range(60, 250))]);
@@ -242,6 +246,9 @@ pub fn profile(name: &str, tier: Tier) -> Option<Profile> {
             p.p_cap_boundary = 0.0;
             // the id set a reader reports after a build that changed the items but not their number
             p.p_swap_round = 0.3;
+            // a change of metric, sometimes followed at once by `clear` (an index without metadata and without marks)
+            p.p_prepare = 0.15;
+            p.p_clear_after_prepare = 0.3;
             p.after_round =
                 if q { AfterRound { keep: 3, commit: 4, abort: 1 } } else { AfterRound { keep: 1, commit: 6, abort: 2 } };
         }
@@ -492,6 +499,8 @@ pub fn profile(name: &str, tier: Tier) -> Option<Profile> {
             p.n_indexes = Mix(vec![(2, Const(1)), (2, Const(2)), (1, Const(3))]);
             p.after_round = AfterRound { keep: 1, commit: 6, abort: 1 };
             p.p_skip_build = 0.2;
+            // leaves re-encoded by a change of metric: before the first build, twice in a row, after a build
+            p.p_prepare = 0.2;
             // word and lane boundaries of the vector codecs (quantised words of 64 components)
             p.dims = Mix(vec![(5, Range(1, 8)), (1, Range(9, 40)), (2, OneOf(vec![16, 63, 64, 65, 128]))]);
         }
